@@ -448,6 +448,38 @@ theorem C27_member_line_fields (m : Member) (haddr : TAB ∉ m.addr ∧ NL ∉ m
 (the documentation promises escaping, not a decodable encoding) -/
 theorem C27_eventClean_not_injective : eventClean [9] = eventClean [92, 116] := by decide
 
+/-! ## the scripts see the node's CURRENT name, role and tags -/
+
+/-- **Every event is handled with `SelfFunc`'s answer of that moment** — for every history of
+tag/name changes and events, in particular user events and queries right after a change with no
+member event in between — when the handler does not cache the member. -/
+theorem C27_self_current (sh : SelfShape) (h : sh.cachesSelf = false) (cache : Option Self)
+    (hist : List (Self × Event)) : selfHistory sh cache hist = hist.map (·.1) := by
+  induction hist generalizing cache with
+  | nil => rfl
+  | cons p rest ih =>
+    obtain ⟨now, e⟩ := p
+    simp only [selfHistory, selfFor, h, Bool.false_eq_true, ↓reduceIte, List.map_cons, ih]
+
+/-- hence the environment of the i-th run is `envOf` of the i-th answer of `SelfFunc` -/
+theorem C27_env_current_self (sh : SelfShape) (h : sh.cachesSelf = false) (san : Bytes → Bytes)
+    (hist : List (Self × Event)) :
+    (List.zip (selfHistory sh none hist) (hist.map (·.2))).map (fun p => envOf p.1.name p.1.tags san p.2) =
+      hist.map (fun p => envOf p.1.name p.1.tags san p.2) := by
+  rw [C27_self_current sh h]
+  induction hist with
+  | nil => rfl
+  | cons p rest ih => simp only [List.map_cons, List.zip_cons_cons, ih]
+
+example : (⟨false⟩ : SelfShape).cachesSelf = false := rfl
+
+/-- COUNTEREXAMPLE for a handler that caches the member and refreshes it on member events only
+(seeded C27-e): the role changes from `a` to `b`, the next user event still runs with `a`. -/
+theorem C27_self_cached_counterexample :
+    selfHistory ⟨true⟩ none
+      [(⟨[110], [([114, 111, 108, 101], [97])]⟩, .user [120] 1 []), (⟨[110], [([114, 111, 108, 101], [98])]⟩, .user [120] 2 [])]
+    = [⟨[110], [([114, 111, 108, 101], [97])]⟩, ⟨[110], [([114, 111, 108, 101], [97])]⟩] := by decide
+
 /-! ## reloading the handler list -/
 
 /-- what the next event will be dispatched with -/
@@ -615,6 +647,16 @@ theorem C27_src_reload :
     hasBlock ["v0.scriptLock.Lock()", "if v0.newScripts != nil {", "v0.Scripts = v0.newScripts", "v0.newScripts = nil", "}", "v0.scriptLock.Unlock()"] EventScriptSrc.handleEvent = true ∧
     before "v0.scriptLock.Unlock()" "for _, v3 := range v0.Scripts {" EventScriptSrc.handleEvent = true ∧
     EventScriptSrc.configEventScripts = ["v1 := make([]EventScript, 0, len(v0.EventHandlers))", "for _, v2 := range v0.EventHandlers {", "v3 := ParseEventScript(v2)", "v1 = append(v1, v3...)", "}", "return v1"] := by decide
+
+/-- the local member (`selfFor` with `cachesSelf = false`): HandleEvent binds it to `SelfFunc()`
+right before the dispatch loop, for every event, and the handler has no field that could hold a
+copy (seeded C27-e cached it in a field refreshed by member events only) -/
+theorem C27_src_self_per_event :
+    EventScriptSrc.selfSource = ["recv.SelfFunc()"] ∧
+    EventScriptSrc.handlerFields = ["SelfFunc func() serf.Member", "Scripts []EventScript", "Logger *log.Logger",
+      "scriptLock sync.Mutex", "newScripts []EventScript"] ∧
+    hasBlock ["v2 := v0.SelfFunc()", "for _, v3 := range v0.Scripts {", "if !v3.Invoke(v1) {", "continue", "}",
+      "v4 := invokeEventScript(v0.Logger, v3.Script, v2, v1)"] EventScriptSrc.handleEvent = true := by decide
 
 end Src
 
